@@ -182,6 +182,27 @@ carquet_status_t carquet_reader_row_group_matches(
 
     compare_fn_t cmp_fn = get_compare_fn(type);
 
+    /* NaN is unordered: a NaN probe, or NaN written as min/max by some writer,
+     * decides nothing about the other values, so the row group cannot be skipped
+     * (comparisons with NaN would all read as "equal" below). */
+    if (type == CARQUET_PHYSICAL_FLOAT) {
+        float p, lo, hi;
+        memcpy(&p, value, sizeof(p));
+        memcpy(&lo, stats.min_value, sizeof(lo));
+        memcpy(&hi, stats.max_value, sizeof(hi));
+        if (p != p || lo != lo || hi != hi) {
+            return CARQUET_OK;
+        }
+    } else if (type == CARQUET_PHYSICAL_DOUBLE) {
+        double p, lo, hi;
+        memcpy(&p, value, sizeof(p));
+        memcpy(&lo, stats.min_value, sizeof(lo));
+        memcpy(&hi, stats.max_value, sizeof(hi));
+        if (p != p || lo != lo || hi != hi) {
+            return CARQUET_OK;
+        }
+    }
+
     int cmp_min, cmp_max;
 
     if (cmp_fn) {
